@@ -44,6 +44,8 @@ CONSTANTS
     R,         \* rows of set field f are 1..R
     G,         \* rows of set field g are 1..G (groups are pairs (f row, g row))
     ColsPer,   \* columns per shard (mode data; Row partials in mode parts)
+    TR,        \* rows of the TopN field t are 1..TR
+    TMax,      \* per shard a row of t has 0..TMax columns (mode data)
     Canon,     \* TRUE: one interleaving per (per-node orders, response order)
     DataSrc    \* "free" | "cat" (mode data)
 
@@ -61,9 +63,9 @@ ColsOf(s) == (s*ColsPer)..(s*ColsPer + ColsPer - 1)
 AllCols == 0..(S*ColsPer - 1)
 VCKinds == {"Sum", "Min", "Max"}
 
-VARIABLES phase, kut, sd, part, exv, lim, nn, owner, coord, nacc, ngot, ndone, cacc, cgot, hist
-vars == <<phase, kut, sd, part, exv, lim, nn, owner, coord, nacc, ngot, ndone, cacc, cgot, hist>>
-MView == <<phase, kut, sd, part, exv, lim, nn, owner, coord, nacc, ngot, ndone, cacc, cgot>>
+VARIABLES phase, kut, sd, tc, part, exv, lim, nn, owner, coord, nacc, ngot, ndone, cacc, cgot, hist
+vars == <<phase, kut, sd, tc, part, exv, lim, nn, owner, coord, nacc, ngot, ndone, cacc, cgot, hist>>
+MView == <<phase, kut, sd, tc, part, exv, lim, nn, owner, coord, nacc, ngot, ndone, cacc, cgot>>
 
 \* mode parts: one reducer (the "kind under test" kut, chosen in Init) per behaviour;
 \* mode data: all kinds at once, derived from the same data
@@ -206,6 +208,44 @@ Ans(k, D, T, l) ==
       [] k = "Row" -> AnsRow(D, T)
       [] k = "Bool" -> \E x \in SC(T) : G \in D[x[1]][x[2]].g     \* ClearRow(g=G): some shard held the row
 
+\* ------------------------------------------------------------ TopN(t, n) with n smaller than the rows
+\* TopN is computed in two passes: every shard names its n best rows (candidates), then the
+\* totals of all candidates are fetched and the n best are returned.  Which rows become
+\* candidates is a matter of the shards, never of which node holds them or coordinates.  The
+\* weakest placement-independent demand: a row that is among the n best of some shard under
+\* every tie order (SureCand) is a candidate whatever the placement, so it is either returned
+\* or has a total no larger than every returned total; returned entries carry true totals in
+\* descending order and there are min(n, rows present) of them.  (An implementation that
+\* considers more candidates - all rows - satisfies it too.)
+TRows == 1..TR
+NoCounts == [s \in Shards |-> [r \in TRows |-> 0]]
+TTotal(M, r) == SumOver(Shards, [s \in Shards |-> M[s][r]])
+TPresent(M) == {r \in TRows : TTotal(M, r) > 0}
+SureCand(M, n) == {r \in TRows : \E s \in Shards :
+                      M[s][r] > 0 /\ Cardinality({x \in TRows \ {r} : M[s][x] >= M[s][r]}) < n}
+\* RS: sequence of [id, n] as returned
+TopNOK(M, n, RS) ==
+    /\ Len(RS) = (IF Cardinality(TPresent(M)) < n THEN Cardinality(TPresent(M)) ELSE n)
+    /\ \A i \in 1..Len(RS) : RS[i].id \in TRows /\ RS[i].n = TTotal(M, RS[i].id)
+    /\ \A i \in 1..(Len(RS) - 1) : RS[i].n >= RS[i+1].n /\ RS[i].id # RS[i+1].id
+    /\ \A r \in SureCand(M, n) : (\E i \in 1..Len(RS) : RS[i].id = r) \/ \A i \in 1..Len(RS) : TTotal(M, r) <= RS[i].n
+\* the exact answer (rows by total, descending; ties by id) satisfies it
+RECURSIVE ExactTop(_, _, _)
+ExactTop(M, n, T) == IF n = 0 \/ T = {} THEN << >>
+    ELSE LET b == CHOOSE r \in T : \A x \in T : TTotal(M, r) > TTotal(M, x) \/ (TTotal(M, r) = TTotal(M, x) /\ r <= x)
+         IN <<[id |-> b, n |-> TTotal(M, b)]>> \o ExactTop(M, n - 1, T \ {b})
+TopNExpect == [counts |-> [i \in 1..S |-> [r \in TRows |-> tc[i-1][r]]],
+               tot |-> {[id |-> r, n |-> TTotal(tc, r)] : r \in TPresent(tc)},
+               sure1 |-> SureCand(tc, 1), sure2 |-> SureCand(tc, 2)]
+\* catalogue: row 1 is the best row of shard a alone, loses to row 2 inside shard b and to row 3
+\* inside shard c, but has the largest total - a node that holds a and b and passes on only
+\* its own n best candidates loses it
+TBase(a, b, c) == [s \in Shards |-> [r \in TRows |->
+    IF s = a THEN (IF r = 1 THEN 1 ELSE 0)
+    ELSE IF s = b THEN (IF r = 1 THEN 1 ELSE IF r = 2 THEN 3 ELSE 0)
+    ELSE IF s = c THEN (IF r = 1 THEN 2 ELSE IF r = 3 THEN 3 ELSE 0) ELSE 0]]
+TCat(d) == CASE d % 3 = 1 -> TBase(0, 1, 2) [] d % 3 = 2 -> TBase(2, 0, 1) [] OTHER -> TBase(1, S - 1, 0)
+
 \* ------------------------------------------------------------ expected final result
 \* from the partial results, by definition (not by folding)
 ExpectPartsP(PP, k, l) ==
@@ -237,6 +277,7 @@ Init ==
     /\ phase = IF Mode = "laws" THEN "law" ELSE "choose"
     /\ kut \in IF Mode = "parts" THEN Kinds ELSE {"all"}
     /\ sd = NoData
+    /\ tc = NoCounts
     /\ part = [s \in Shards |-> [k \in KS |-> Ident(k)]]
     /\ exv = << >>
     /\ lim = 0 /\ nn = 0 /\ coord = 0
@@ -254,14 +295,14 @@ Law ==
                                  ab_c |-> Red(k, l, Red(k, l, a, b), c), a_bc |-> Red(k, l, a, Red(k, l, b, c)),
                                  ea |-> Red(k, l, Ident(k), a), ae |-> Red(k, l, a, Ident(k))])
     /\ phase' = "done"
-    /\ UNCHANGED <<kut, sd, part, exv, lim, nn, owner, coord, nacc, ngot, ndone, cacc, cgot>>
+    /\ UNCHANGED <<kut, sd, tc, part, exv, lim, nn, owner, coord, nacc, ngot, ndone, cacc, cgot>>
 
 \* the limit is chosen first (the shard partials of Rows / GroupBy are truncated to it)
 ChooseLim ==
     /\ phase = "choose" /\ lim = 0
     /\ \E l \in LimsFor(kut) : lim' = l
     /\ hist' = Append(hist, [op |-> "Lim", lim |-> lim', kind |-> kut])
-    /\ UNCHANGED <<phase, kut, sd, part, exv, nn, owner, coord, nacc, ngot, ndone, cacc, cgot>>
+    /\ UNCHANGED <<phase, kut, sd, tc, part, exv, nn, owner, coord, nacc, ngot, ndone, cacc, cgot>>
 
 NextIdx == Len(hist) - 1       \* shards (mode parts) / columns (mode data) are filled in order
 
@@ -271,7 +312,7 @@ ChooseParts ==
        \E v \in PartDom(kut, s, lim) :
           /\ part' = [part EXCEPT ![s] = [k \in {kut} |-> v]]
           /\ hist' = Append(hist, [op |-> "Part", shard |-> s, v |-> v])
-    /\ UNCHANGED <<phase, kut, sd, exv, lim, nn, owner, coord, nacc, ngot, ndone, cacc, cgot>>
+    /\ UNCHANGED <<phase, kut, sd, tc, exv, lim, nn, owner, coord, nacc, ngot, ndone, cacc, cgot>>
 
 ChooseData ==
     /\ phase = "choose" /\ lim > 0 /\ Mode = "data"
@@ -285,14 +326,22 @@ ChooseData ==
                 /\ hist' = Append(hist, [op |-> "Col", col |-> ColId(s, c), attr |-> "g"])
              \/ /\ at = 2 /\ \E x \in Vals \cup {NoVal} : sd' = [sd EXCEPT ![s][c].v = x]
                 /\ hist' = Append(hist, [op |-> "Col", col |-> ColId(s, c), attr |-> "v"])
+          /\ tc' = tc
+       \/ /\ DataSrc = "free" /\ NextIdx \in (3*S*ColsPer)..(3*S*ColsPer + S*TR - 1)
+          \* the TopN field: how many columns of shard s hold row r (one entry per step)
+          /\ LET ti == NextIdx - 3*S*ColsPer  s == ti \div TR  r == (ti % TR) + 1 IN
+             /\ \E x \in 0..TMax : tc' = [tc EXCEPT ![s][r] = x]
+             /\ hist' = Append(hist, [op |-> "Cnt", shard |-> s, row |-> r])
+          /\ sd' = sd
        \/ /\ DataSrc = "cat" /\ Len(hist) = 1
           /\ \E d \in DOMAIN Cat :
                /\ sd' = Cat[d]
+               /\ tc' = TCat(d)
                /\ hist' = Append(hist, [op |-> "Cat", id |-> d])
     /\ UNCHANGED <<phase, kut, part, exv, lim, nn, owner, coord, nacc, ngot, ndone, cacc, cgot>>
 
 DataChosen == IF Mode = "data"
-              THEN (IF DataSrc = "cat" THEN Len(hist) = 2 ELSE NextIdx = 3*S*ColsPer)
+              THEN (IF DataSrc = "cat" THEN Len(hist) = 2 ELSE NextIdx = 3*S*ColsPer + S*TR)
               ELSE NextIdx = S
 
 \* the data as the harness loads it: one record per column that holds anything
@@ -304,9 +353,10 @@ DataCols == {[col |-> ColId(x[1], x[2]), shard |-> x[1], f |-> sd[x[1]][x[2]].f,
 Derive ==
     /\ phase = "choose" /\ lim > 0 /\ DataChosen
     /\ part' = IF Mode = "data" THEN [s \in Shards |-> [k \in KS |-> Ans(k, sd, {s}, lim)]] ELSE part
-    /\ exv' = [expect |-> [k \in KS |-> Expect(k)], data |-> IF Mode = "data" THEN DataCols ELSE {}]
+    /\ exv' = [expect |-> [k \in KS |-> Expect(k)], data |-> IF Mode = "data" THEN DataCols ELSE {},
+               topn |-> IF Mode = "data" THEN TopNExpect ELSE << >>]
     /\ phase' = "place"
-    /\ UNCHANGED <<kut, sd, lim, nn, owner, coord, nacc, ngot, ndone, cacc, cgot, hist>>
+    /\ UNCHANGED <<kut, sd, tc, lim, nn, owner, coord, nacc, ngot, ndone, cacc, cgot, hist>>
 
 \* placement: cluster size, grouping of the shards onto the nodes, coordinator
 Place ==
@@ -317,9 +367,10 @@ Place ==
          /\ ngot' = [x \in 0..(n-1) |-> {}]
          /\ cacc' = [k \in KS |-> Ident(k)]
          /\ hist' = Append(hist, [op |-> "Place", nodes |-> n, owner |-> [i \in 1..S |-> o[i-1]],
-                                  coord |-> co, lim |-> lim, data |-> exv.data, expect |-> exv.expect])
+                                  coord |-> co, lim |-> lim, data |-> exv.data, expect |-> exv.expect,
+                                  topn |-> exv.topn])
     /\ phase' = "run" /\ ndone' = {} /\ cgot' = {}
-    /\ UNCHANGED <<kut, sd, part, exv, lim>>
+    /\ UNCHANGED <<kut, sd, tc, part, exv, lim>>
 
 Used == {owner[s] : s \in Shards}
 ShardsOf(n) == {s \in Shards : owner[s] = n}
@@ -332,14 +383,14 @@ LocalArrive(n, s) ==
     /\ nacc' = [nacc EXCEPT ![n] = [k \in KS |-> Red(k, lim, nacc[n][k], part[s][k])]]
     /\ ngot' = [ngot EXCEPT ![n] = @ \cup {s}]
     /\ hist' = Append(hist, [op |-> "LocalArrive", node |-> n, shard |-> s, acc |-> nacc'[n]])
-    /\ UNCHANGED <<phase, kut, sd, part, exv, lim, nn, owner, coord, ndone, cacc, cgot>>
+    /\ UNCHANGED <<phase, kut, sd, tc, part, exv, lim, nn, owner, coord, ndone, cacc, cgot>>
 
 \* the node has reduced all its shards: its response is on its way to the coordinator
 NodeDone(n) ==
     /\ phase = "run" /\ n \in Used \ ndone /\ Complete(n)
     /\ ndone' = ndone \cup {n}
     /\ hist' = Append(hist, [op |-> "NodeDone", node |-> n])
-    /\ UNCHANGED <<phase, kut, sd, part, exv, lim, nn, owner, coord, nacc, ngot, cacc, cgot>>
+    /\ UNCHANGED <<phase, kut, sd, tc, part, exv, lim, nn, owner, coord, nacc, ngot, cacc, cgot>>
 
 \* a node's response reaches the coordinator's reduce loop (mapReduce)
 RemoteArrive(n) ==
@@ -349,7 +400,7 @@ RemoteArrive(n) ==
     /\ cgot' = cgot \cup {n}
     /\ phase' = IF cgot' = Used THEN "done" ELSE "run"
     /\ hist' = Append(hist, [op |-> "RemoteArrive", node |-> n, acc |-> cacc'])
-    /\ UNCHANGED <<kut, sd, part, exv, lim, nn, owner, coord, nacc, ngot, ndone>>
+    /\ UNCHANGED <<kut, sd, tc, part, exv, lim, nn, owner, coord, nacc, ngot, ndone>>
 
 Next ==
     \/ Law \/ ChooseLim \/ ChooseParts \/ ChooseData \/ Derive \/ Place
@@ -368,6 +419,10 @@ OrderIndependent == (phase = "done" /\ Mode # "laws") => \A k \in KS : cacc[k] =
 DataConsistent == (Mode = "data" /\ phase = "choose" /\ lim > 0 /\ DataChosen) =>
     LET PP == [s \in Shards |-> [k \in KS |-> Ans(k, sd, {s}, lim)]]
     IN \A k \in KS : Ans(k, sd, Shards, lim) = ExpectPartsP(PP, k, lim)
+
+\* (M) the demand on TopN(t, n) is satisfiable: the exact answer meets it
+TopNSatisfiable == (Mode = "data" /\ phase = "place") =>
+    \A n \in 1..2 : TopNOK(tc, n, ExactTop(tc, n, TPresent(tc)))
 
 \* (M) a node's response is the answer over exactly the shards it owns
 NodeAnswers == (Mode = "data" /\ phase \in {"run", "done"} /\ ndone # {}) =>
